@@ -134,6 +134,8 @@ def exact(spec, fmt=None):
         return (len(subs),) + tuple(sh0), flat
     if k == 'a':
         return tuple(spec[2]), [dy(n, e) for n, e in spec[3]]
+    if k == 'sa':
+        return tuple(spec[2]), [_bits_value(b, fmt) for b in spec[3]]
     raise ValueError('bad valspec %r' % (spec,))
 
 
@@ -167,6 +169,16 @@ def carrier(spec):
         return [carrier(s) for s in spec[1]]
     if k == 't':
         return tuple(carrier(s) for s in spec[1])
+    if k == 'sa':
+        # ["sa", "O" | "U", shape, [bits, ...], prefixed]: a NumPy array of binary literals, of dtype object
+        # or of a fixed-width string type, with or without the '0b' prefix (from_bin takes them without)
+        items = [('0b' if (len(spec) > 4 and spec[4]) else '') + b for b in spec[3]]
+        arr = np.empty(len(items), dtype=object)
+        for i, it in enumerate(items):
+            arr[i] = it
+        if spec[1] != 'O':
+            arr = arr.astype(str)
+        return arr.reshape(tuple(spec[2]))
     if k == 'x':
         # an input type the library does not support (fault F2): must be rejected
         if spec[1:] and spec[1] == 'str':
@@ -210,6 +222,8 @@ def is_string_spec(spec):
     if k in ('s', 'b', 'h'):
         return True
     if k == 'a' and spec[1] == 'str':
+        return True
+    if k == 'sa':
         return True
     if k in ('l', 't'):
         return any(is_string_spec(s) for s in spec[1])
